@@ -156,6 +156,16 @@ fn run_rust(root: &Root, handle: Option<&Handle>, procfs: Option<&ProcfsHandle>,
                 Err(e) => err_outcome(e),
             }
         }
+        "proc_fd_path" => {
+            // what as_unsafe_path does: read /proc/thread-self/fd/<N> of a resolved handle through the procfs handle
+            use std::os::unix::io::AsFd;
+            let pf = procfs.expect("procfs handle");
+            let n = handle.expect("handle").as_fd().as_raw_fd();
+            match pf.readlink(ProcfsBase::ProcThreadSelf, format!("fd/{n}")) {
+                Ok(p) => Outcome::Bytes(p.as_os_str().as_bytes().to_vec()),
+                Err(e) => err_outcome(e),
+            }
+        }
         "procfs_new" => match ProcfsHandle::new() {
             Ok(_h) => Outcome::Unit,
             Err(e) => err_outcome(e),
@@ -384,6 +394,10 @@ fn run_job_inner(args: &Args, job: &Value, seq: usize) -> Value {
         out["build_errs"] = json!(build_errs);
     }
     let rootpath = tree::join(&sb, rootrel);
+    {
+        use std::os::unix::ffi::OsStrExt;
+        out["rootpath"] = json!(hex(rootpath.as_os_str().as_bytes()));
+    }
     let op = job["op"].clone();
     if let Some(uid) = job.get("as_uid").and_then(|u| u.as_u64()) {
         // run the call (library or raw kernel oracle) on a thread whose effective/fs uid is `uid`
@@ -521,7 +535,7 @@ fn run_job_inner(args: &Args, job: &Value, seq: usize) -> Value {
     let k = op["k"].as_str().unwrap_or("").to_string();
 
     // objects opened outside the traced region
-    let needs_root = !k.starts_with("proc");
+    let needs_root = !k.starts_with("proc") || k == "proc_fd_path";
     let root: Option<Arc<Root>> = if needs_root {
         match Root::open(&rootpath) {
             Ok(r) => Some(Arc::new(r.with_resolver_flags(ResolverFlags::from_bits_retain(rflags)))),
@@ -538,7 +552,7 @@ fn run_job_inner(args: &Args, job: &Value, seq: usize) -> Value {
     // then apply the history.
     let mut handle: Option<Arc<Handle>> = None;
     let mut restore_fd: Option<(i32, i32)> = None;
-    if k == "reopen" {
+    if k == "reopen" || k == "proc_fd_path" {
         let r = root.as_ref().unwrap();
         let p = bpath(&op, "path");
         let h = if op["nofollow"].as_bool().unwrap_or(false) { r.resolve_nofollow(&p) } else { r.resolve(&p) };
